@@ -32,8 +32,14 @@ type replayRec struct {
 // Failure names the property it violates.
 func RunScenarios(t *testing.T, r *vk.Run, props []string, scs []Scenario) {
 	shard, nshards := r.Shard()
-	SetHangHook(func(name string, prefix []int) {
-		r.EngineError("scenario %s: execution could not be torn down (prefix %v)", name, prefix)
+	SetHangHook(func(name string, choices []int, fails []Failure, why string) {
+		if len(fails) == 0 {
+			r.EngineError("scenario %s: %s (choices %v)", name, why, choices)
+			return
+		}
+		for _, f := range fails {
+			r.Violation(f.Prop, name+"/"+f.Key, f.Desc+"\n  ("+why+"; worker stopped after this execution)", replayRec{Scenario: name, Choices: choices})
+		}
 	})
 	if f := r.ReplayFile(); f != "" {
 		var rp replayRec
